@@ -712,3 +712,98 @@ Theorem C13_all_files_well_formed : forall inp out, EmuAllDefs.ovniemu_model inp
 Proof. exact EmuAllProofs.files_well_formed. Qed.
 Print Assumptions C13_all_files_well_formed.
 (* ==== end of block (EmuAllDefs) ==== *)
+
+(* ==== generated emulator is the model (EmuGenAllProofs) ==== *)
+(* Composition of the from-source units: the main loop as generated from emu.c / model.c / recorder.c / pvt.c / prv.c (unit
+   emuloop, Gen/EmuLoop_gen.v) with the model handlers as generated from the eight <model>/event.c (unit dispatch,
+   Gen/Dispatch_gen.v).  EmuLoopPre gives spec->event(emu) a hand-written meaning (core_step on decode_all); C18_dispatch_from_source
+   proves that meaning equal to the generated handlers; here they are put together, so that the event hook in the statements is
+   DispatchProofs.gen_event m = the generated model_<m>_event (EmuGenAllProofs.gen_handler / gen_iter).
+   C13_generated_step_is_model (per event, in full): one generated emu_step on a delivered event = recorder_advance, the
+     enabled test, the GENERATED handler of the event's model, the emission rule, the PRV emit callbacks - refusal for refusal.
+   C13_generated_emulator_is_model_partial (whole run): PvDefs.emulate with its replay loop run by the generated handlers
+     (EmuGenAllProofs.emulate_gen) returns what PvDefs.emulate returns - same refusal or the same six files - GIVEN an invariant P of
+     the core state that the accepted events of the trace preserve and that supplies the preconditions of the dispatch theorem
+     (thread exists, CPU lists consistent, no physical CPU oversubscribed: GuardsProofs.GInv).  MISSING for the unconditional
+     statement: such a P for events of all models (GInv is proved preserved by thread/affinity events only).  With
+     C13_emu_run_from_source (generated loop = pv_run_from), C13_emu_connect/finish_from_source and C13_all_files_means_valid
+     (ovniemu_model = stage; emulate) this is the chain from the generated C to the composed model.
+   Glue that remains hand-written: the monads and primitives of EmuLoopPre / DispatchPre (state threading, `return -1`, NULL
+   tests), the MSem rendering of the models' state (core state + pending dirty channels), the emission rule standing for
+   bay_propagate (tied to the generated bay code separately: C06_bay_run_refines), en_content (what emu_ev decodes from the
+   stream bytes), the per-model connect / finish hooks (instantiated with PvDefs.model_connect / finish_pvt in EmuLoopProofs),
+   the link eenv <-> EmuAllDefs.stage (player state, offsets, stream -> thread map), the gid table, the lint check. *)
+From OV Require Proofs.EmuGenAllProofs Proofs.DispatchProofs Proofs.EmuAllStage.
+Theorem C13_generated_step_is_model : forall sx st e pst' who cst marks,
+  PlayerDefs.pstep true (EmuLoopPre.en_offs sx) (EmuLoopPre.es_player st) = PlayerDefs.SEmit e pst' ->
+  EmuLoopPre.en_lpt sx (PlayerDefs.o_id e) = Some who ->
+  0 <= EmuLoopRelDefs.model_of sx e < 256 -> EmuLoopRelDefs.models_wf sx st ->
+  EmuLoopPre.es_models st = EmuLoopPre.MSem cst None ->
+  EmuGenAllProofs.handler_ready (EmuLoopPre.en_sx sx) (EmuLoopPre.es_enabled st) marks cst who ->
+  EmuLoop_gen.emu_step tt sx st =
+  match EmuGenAllProofs.gen_iter (EmuLoopPre.en_sx sx) (EmuLoopPre.es_enabled st) cst (EmuLoopPre.es_rec st) (PlayerDefs.o_dclock e) who
+          (EmuLoopPre.en_content sx (PlayerDefs.o_id e) (PlayerDefs.o_pay e)) with
+  | Ok (cst', r') => Ok (0, EmuLoopPre.with_models (EmuLoopPre.with_rec (EmuLoopRelDefs.delivered st pst' e who) r') (EmuLoopPre.MSem cst' None))
+  | Err _ => Err EmuLoopPre.E_FAIL
+  end.
+Proof. exact EmuGenAllProofs.generated_step_is_model. Qed.
+Print Assumptions C13_generated_step_is_model.
+
+Theorem C13_generated_emulator_is_model_partial : forall sx phy en ms lintchans tl revs marks (P : state -> Prop),
+  (forall st who ev st1 ls, P st -> step sx st who ev = Ok (st1, ls) -> P st1) ->
+  (forall st who, P st -> (who < length (s_threads sx))%nat -> EmuGenAllProofs.handler_ready sx en marks st who) ->
+  P (init sx) -> (forall rv, In rv revs -> (EmuGenAllProofs.rev_thread rv < length (s_threads sx))%nat) ->
+  EmuGenAllProofs.same_res (EmuGenAllProofs.emulate_gen sx phy en ms lintchans tl revs)
+                           (emulate sx phy en ms lintchans tl (EmuGenAllProofs.decode_revs en sx revs)).
+Proof. exact EmuGenAllProofs.generated_emulate_is_model_partial. Qed.
+Print Assumptions C13_generated_emulator_is_model_partial.
+
+(* UNCONDITIONAL for the traces of C04 (every delivered event a thread-state or affinity event of the base model): the invariant is
+   ThreadCpuProofs.Bind, preserved by those events (GuardsProofs.Bind_step).  First on PvDefs.emulate, then on the composed
+   whole-emulator model: wherever EmuAllDefs.ovniemu_model reaches its emulate stage (EmuAllStage.stage inp = inr ..), running the
+   replay with the GENERATED handlers (connect / finish / close as in PvDefs) gives ovniemu_model's answer - the same six files, or a
+   refusal on both sides.  Its side conditions are discharged from the stage: channels = enabled models ++ marks, enabled models
+   among the eight of the tables (model_probe), ovni enabled (C14), every event's thread is a row of the built system. *)
+Theorem C13_generated_emulator_is_model_oh : forall sx phy en ms lintchans tl revs marks,
+  s_chans sx = mk_chans en ++ marks -> (forall m, memz m en = true -> In m DispatchProofs.all_models) -> memz M_OVNI en = true ->
+  (forall rv, In rv revs -> EmuGenAllProofs.rev_is_oh rv /\ (EmuGenAllProofs.rev_thread rv < length (s_threads sx))%nat) ->
+  EmuGenAllProofs.same_res (EmuGenAllProofs.emulate_gen sx phy en ms lintchans tl revs)
+                           (emulate sx phy en ms lintchans tl (EmuGenAllProofs.decode_revs en sx revs)).
+Proof. exact EmuGenAllProofs.generated_emulate_is_model_oh. Qed.
+Print Assumptions C13_generated_emulator_is_model_oh.
+
+Theorem C13_generated_emulator_is_model_thread_traces : forall inp sys en ms revs, EmuAllStage.stage inp = inr (sys, en, ms, revs) ->
+  (forall rv, In rv revs -> EmuGenAllProofs.rev_is_oh rv) ->
+  let sx := EmuAllStage.stage_sx inp sys en ms in
+  match EmuGenAllProofs.emulate_gen sx (SysStaticDefs.sys_phy sys) en ms (lint_chans (mk_chans en)) (tlabels_of sx revs) revs with
+  | Ok out => EmuAllDefs.ovniemu_model inp = EmuAllDefs.Files out
+  | Err _ => exists e, EmuAllDefs.ovniemu_model inp = EmuAllDefs.Refused (EmuAllDefs.REmu e)
+  end.
+Proof. exact EmuGenAllProofs.generated_all_oh. Qed.
+Print Assumptions C13_generated_emulator_is_model_thread_traces.
+(* ==== end of block (EmuGenAllProofs) ==== *)
+
+(* ==== the writer follows the core (PvWriterTotal) ==== *)
+(* C13_connect_registers_every_slot: after the connect-time registration every (row, type) the emulator core can emit a record
+   for - rows below the thread / CPU count, types of th_types / cpu_types - has a registered PRV channel with id type * nrows + row.
+   C13_writer_follows_core: hence whenever the emulator core accepts a run (EmuCoreDefs.run = Ok) whose event times are
+   non-decreasing and which creates no task types, the whole `emulate` (connect, replay with every record written through its
+   channel, finish, close) succeeds: the Paraver writer never refuses what the core accepts.  (With task types, finish may
+   legitimately refuse a gid collision: C13_ex_refuse_gid_collision.) *)
+From OV Require Proofs.PvWriterTotal.
+Theorem C13_connect_registers_every_slot : forall sx phy en ms r,
+  s_chans sx = mk_chans en ++ mark_chans ms -> marks_ok ms -> memz M_OVNI en = true -> length phy = length (s_cpus sx) ->
+  connect sx phy en ms = Ok r ->
+  (forall g ty, (g < length (s_threads sx))%nat -> In ty (th_types sx) -> PvWriterTotal.HasChan (rc_th r) ty (Z.of_nat g)) /\
+  (forall g ty, (g < length (s_cpus sx))%nat -> In ty (cpu_types sx) -> PvWriterTotal.HasChan (rc_cpu r) ty (Z.of_nat g)).
+Proof. exact PvWriterTotal.connect_has. Qed.
+Print Assumptions C13_connect_registers_every_slot.
+
+Theorem C13_writer_follows_core : forall sx phy en ms lc tl evs ls,
+  s_chans sx = mk_chans en ++ mark_chans ms -> marks_ok ms -> PvTotalProofs.marks_fine ms -> PvTotalProofs.cpu_ok sx phy -> memz M_OVNI en = true ->
+  StronglySorted Z.le (map ev_time evs) ->
+  EmuCoreDefs.run sx lc evs = Ok ls -> (forall st tl', run_from sx (init sx) evs = Ok (st, tl') -> types st = nil) ->
+  exists out, emulate sx phy en ms lc tl evs = Ok out.
+Proof. exact PvWriterTotal.emulate_total. Qed.
+Print Assumptions C13_writer_follows_core.
+(* ==== end of block (PvWriterTotal) ==== *)
